@@ -770,7 +770,7 @@ def check_case(ctx, drv, case, full=True):
                                 ctx.count("model_steps_skipped_ill_conditioned_step")
                                 d = None
                                 continue
-                    if d is None and not close(ll_from_model(st, ms), S["loglik"], 1.0, rtol=rtol):
+                    if d is None and not (abs(ll_from_model(st, ms) - S["loglik"]) <= agree_tol(st, S, S["loglik"]) + rtol * max(1.0, abs(S["loglik"]))):
                         d = f"log-likelihood after sweep {S['it']}: implementation {S['loglik']!r}, model {ll_from_model(st, ms)!r}"
                     if d is not None and near_threshold(S, ms, minv):
                         ctx.count("model_steps_skipped_near_threshold")
